@@ -129,6 +129,12 @@ def _body_lines(body: dict, params: list[str], env_name: str = "_E") -> list[str
             lines.append(f"if type({first}) is int and {first} == {body['k']}: raise {env_name}.err({body['t']!r})")
         lines.append(f"return ({body['t']!r},) + {tup}")
         return lines
+    if b == "failGe":
+        lines = []
+        if params:
+            lines.append(f"if type({first}) is int and {first} >= {body['k']}: raise {env_name}.err({body['t']!r} + str({first}))")
+        lines.append(f"return ({body['t']!r},) + {tup}")
+        return lines
     if b == "nonBool":
         return ["return 1"]
     if b == "wrongArity":
@@ -192,7 +198,7 @@ def _tuple_or_none(names: list[str]) -> Any:
     return tuple(names)
 
 
-def _exercise(n: Any, env: Env) -> None:
+def _exercise(n: Any, env: Env, run: bool = False) -> None:
     """Use an intermediate node object the way user code may before deriving from it (read-only public API)."""
     if not env.exercise_intermediates:
         return
@@ -201,7 +207,19 @@ def _exercise(n: Any, env: Env) -> None:
         n.map_inputs_to_params({})
         for p in n.inputs:
             n.has_default_for(p)
-        _ = Graph([n], name="warmup").inputs
+        g = Graph([n], name="warmup")
+        _ = g.inputs
+        if run:
+            mc = getattr(n, "map_config", None)
+            mapped = set(mc[0]) if mc else set()
+            saved = (env.log, env.park, env.inflight, env.max_inflight, env.received)
+            env.log, env.park, env.received = [], None, []
+            try:
+                from hypergraph import SyncRunner
+
+                SyncRunner().run(g, {k: ([0] if k in mapped else 0) for k in g.inputs.required}, error_handling="continue", max_iterations=4)
+            finally:
+                env.log, env.park, env.inflight, env.max_inflight, env.received = saved
     except Exception:  # noqa: BLE001 - only a warm-up
         pass
 
@@ -287,6 +305,16 @@ def build_node(spec: dict, gi: int, graphs: list[Any], env: Env, *, async_bodies
             gn = gn.with_outputs(out_ren)
         if spec.get("mapOver"):
             _exercise(gn, env)
+            if env.exercise_intermediates:
+                # the wrapper is first configured to map over OTHER parameters and used, then re-configured: the later
+                # configuration must win completely
+                other = [p for p in gn.inputs if p not in spec["mapOver"]][:1] or list(spec["mapOver"])[:1]
+                try:
+                    pre = gn.map_over(*other, mode="zip")
+                    _exercise(pre, env, run=True)
+                    gn = pre
+                except Exception:  # noqa: BLE001 - only a warm-up
+                    pass
             gn = gn.map_over(*spec["mapOver"], mode=spec.get("mapMode", "zip"), error_handling=spec.get("errMode", "raise"))
         return gn
     raise ValueError(f"unknown kind {kind}")
